@@ -53,7 +53,7 @@ func TestMain(m *testing.M) {
 }
 
 // failingFaults end a request without an accepted reply in different ways (timeout, retries used up, refusal).
-var failingFaults = []string{"drop-response", "drop-request", "stale-twice", "unsynchronized", "kiss-of-death", "wrong-source-first"}
+var failingFaults = []string{"drop-response", "drop-request", "stale-twice", "unsynchronized", "kiss-of-death", "wrong-source-first", "padded", "padded-twice"}
 
 // realFault tells injected network faults from variations of a conformant server's behaviour.
 func realFault(f string) bool {
@@ -132,7 +132,7 @@ type exMeta struct {
 	fault string
 }
 
-var rec = ev.New("c03/ip-client", "rapid state machine on one real IPClient (interleaved mode on/off) against the harness's protocol-conformant NTP server model on loopback (real sockets, kernel timestamps): actions exchange(per-request fault in {none, drop request, drop response, duplicate reply, stale reply first, reply from another address first, delayed reply}), switch server, idle > 3 s (rare); the model's clock offset changes by >= 2 s (up to +-20 years) on every request. Oracle per successful call: the offset lies in the envelope [(r+s)/2 - B, (r+s)/2 - A] + theta_j of exactly the exchange j it must describe (current one for a basic reply, the cited previous one for an interleaved reply; A,B call instants, r,s model read/write instants), equals the client's logged offset, and |off - theta_j| <= rtd/2 + 4 ns when kernel timestamps were used; interleaved state agrees with the model; timestamp within the call; fault-free calls succeed. One evaluation = one client call. Non-trivial: sequence with an accepted interleaved reply or an accepted reply after a faulty exchange; distinct by action-log hash")
+var rec = ev.New("c03/ip-client", "rapid state machine on one real IPClient (interleaved mode on/off) against the harness's protocol-conformant NTP server model on loopback (real sockets, kernel timestamps): actions exchange(per-request fault in {none, drop request, drop response, duplicate reply, stale reply first, reply from another address first, delayed reply, reply with 4..100 bytes appended - once or twice -, unsynchronized / kiss-of-death reply, two stale replies first}), switch server, idle > 3 s (rare); the model's clock offset changes by >= 2 s (up to +-20 years) on every request. Oracle per successful call: the offset lies in the envelope [(r+s)/2 - B, (r+s)/2 - A] + theta_j of exactly the exchange j it must describe (current one for a basic reply, the cited previous one for an interleaved reply; A,B call instants, r,s model read/write instants), equals the client's logged offset, and |off - theta_j| <= rtd/2 + 4 ns when kernel timestamps were used; interleaved state agrees with the model; timestamp within the call; fault-free calls succeed. One evaluation = one client call. Non-trivial: sequence with an accepted interleaved reply or an accepted reply after a faulty exchange; distinct by action-log hash")
 
 func TestPropIPClient(t *testing.T) {
 	vt.Check(t, 220, 1500, func(t *rapid.T) {
@@ -205,6 +205,19 @@ func TestPropIPClient(t *testing.T) {
 						} else {
 							d[1] = 0 // stratum 0
 							copy(d[12:16], "RATE")
+						}
+						return []netlab.Out{{Data: d}}
+					}
+				case "padded", "padded-twice":
+					// a server that appends a 20-byte symmetric-key MAC (or an extension field) to its replies: a client
+					// without NTS reads 48 bytes and learns that the datagram was longer; it may refuse such a reply, but
+					// whatever it reports must not be a measurement that no delivered 48-byte reply describes
+					twice := f == "padded-twice"
+					trailer := rapid.SampledFrom([]int{4, 20, 24, 28, 100}).Draw(t, "trailer-len")
+					p.Outs = func(ex *netlab.Exchange) []netlab.Out {
+						d := append(append([]byte(nil), ex.Genuine...), make([]byte, trailer)...)
+						if twice {
+							return []netlab.Out{{Data: d}, {Data: d}}
 						}
 						return []netlab.Out{{Data: d}}
 					}
@@ -364,7 +377,7 @@ func TestPropIPClient(t *testing.T) {
 			}
 		}
 
-		faultGen := rapid.SampledFrom([]string{"none", "none", "none", "none", "none", "none", "none", "duplicate", "stale-first", "wrong-source-first", "delayed", "drop-request", "drop-response", "duplicate", "stale-first", "wrong-source-first", "delayed", "force-basic", "snap-rx", "snap-tx", "snap-both", "snap-rx", "stale-twice", "stale-twice", "unsynchronized", "kiss-of-death"})
+		faultGen := rapid.SampledFrom([]string{"none", "none", "none", "none", "none", "none", "none", "duplicate", "stale-first", "wrong-source-first", "delayed", "drop-request", "drop-response", "duplicate", "stale-first", "wrong-source-first", "delayed", "force-basic", "snap-rx", "snap-tx", "snap-both", "snap-rx", "stale-twice", "stale-twice", "unsynchronized", "kiss-of-death", "padded", "padded-twice"})
 		t.Repeat(map[string]func(*rapid.T){
 			"exchange": func(t *rapid.T) {
 				fs := rapid.SliceOfN(faultGen, 3, 3).Draw(t, "faults")
